@@ -108,7 +108,13 @@ def replay_calls(name, calls):
             cb.restart_step()
         elif op == "if":
             before = set(seen_user)
-            cm = cb.if_(exprs.from_json(call["c"]))
+            if call.get("form") == "str3" and call["c"][0] == "cmp":
+                # the three-argument form of the API with textual operands: if_("a", "<", "b")
+                cm = cb.if_(str(exprs.from_json(call["c"][2])), call["c"][1], str(exprs.from_json(call["c"][3])))
+            elif call.get("form") == "str1":
+                cm = cb.if_(str(exprs.from_json(call["c"])))
+            else:
+                cm = cb.if_(exprs.from_json(call["c"]))
             cm.__enter__()
             stack.append(cm)
             flag = cb.statements[-1].lhs.name
